@@ -24,6 +24,9 @@ ASAN_ENV = {
 }
 
 
+MAX_CRASHES = 12
+
+
 class Inconclusive(Exception):
     """Harness failure / too little observed: exit 2, never a verdict."""
 
@@ -136,6 +139,9 @@ def run_script(exe, cases, env=None, timeout=600, tag="drv", args=()):
         else:
             crashes.append(Crash(cid, rc, err, "exit-%s" % rc if rc > 0 else "signal-%s" % (-rc)))
         remaining = remaining[idx + 1:]
+        if len(crashes) >= MAX_CRASHES:
+            # enough witnesses; do not spend the budget restarting the driver thousands of times
+            break
     return results, crashes
 
 
